@@ -97,12 +97,12 @@ func (c Content) Bytes() []byte {
 // Calc is one calculation on the hasher.
 type Calc struct {
 	Content Content `json:"content"`
-	Chunks  []int   `json:"chunks"`         // sizes returned by successive Reads (cycled); 0 = zero-length read
-	Outcome int     `json:"outcome"`        // 0 complete, 1 reader fails at byte At, 2 context cancelled at byte At
-	At      int     `json:"at"`             // byte offset of the fault
+	Chunks  []int   `json:"chunks"`               // sizes returned by successive Reads (cycled); 0 = zero-length read
+	Outcome int     `json:"outcome"`              // 0 complete, 1 reader fails at byte At, 2 context cancelled at byte At
+	At      int     `json:"at"`                   // byte offset of the fault
 	ErrKind int     `json:"error_kind,omitempty"` // outcome 1: 0 bespoke error, 1 io.ErrUnexpectedEOF, 2 an error wrapping io.EOF, 3 commonerrors.ErrEOF, 4 os.ErrClosed
-	Eager   bool    `json:"eager_eof"`      // reader returns io.EOF together with the last bytes
-	WT      bool    `json:"with_writer_to"` // reader also implements io.WriterTo
+	Eager   bool    `json:"eager_eof"`            // reader returns io.EOF together with the last bytes
+	WT      bool    `json:"with_writer_to"`       // reader also implements io.WriterTo
 }
 
 type Case struct {
